@@ -5,7 +5,7 @@ from core import Result
 import proto, gen, implutil
 from props.C11 import DelayedCF
 
-THEOREMS = ['C12_axis01', 'C12_axis0', 'C12_axis1', 'C12_transpose', 'C12_index_counterexample']
+THEOREMS = ['C12_axis01', 'C12_axis0', 'C12_axis1', 'C12_transpose', 'C12_index_counterexample', 'C12_group_routing']
 RULE = ("3-D arrays of pairwise different signals, shapes (n0, n1) in {1,2,3}^2 (n0 != n1 and size-1 dimensions included) x axis in {0, 1, (0,1)} x option argument "
         "None / shared dict / 1-D per-slice list (axis 0, 1) / 2-D per-signal list (axis (0,1)) x n_jobs in {1, 2, n+1} x return_samples, delays injected as in C11; through "
         "compute_features_3d and BycycleGroup.fit; judge: entry [i][j] equals the analysis of signal [i, j] alone (axis (0,1)), epoch j of the flattened-epoch analysis of "
